@@ -603,7 +603,7 @@ package mcp
 //@   ensures @one-notice calls(notify) == 1 && result == callResult(notify, 1, 0)
 // The best-effort cancellation notice: sent with the caller's values but not its cancellation, bounded by the
 // notification timeout, referencing exactly the abandoned call.
-//@ func call$1 [C04, C10]
+//@ func call$1 [C04, C10, C13, C05]
 //@   requires conn != nil
 //@   track context.WithoutCancel as detach
 //@   track context.WithTimeout as bound
